@@ -83,6 +83,8 @@ func emitCells() []emitCell {
 		cs = append(cs, emitCell{Kind: "inline", Repeat: r})
 	}
 	cs = append(cs, emitCell{Kind: "match"}, emitCell{Kind: "match", LenAttr: true})
+	// two scalar fields in one packet: the steps come in declaration order
+	cs = append(cs, emitCell{Kind: "order", Typ: "u16"})
 	for _, t := range []string{"u16", "u32"} {
 		cs = append(cs, emitCell{Kind: "length", Typ: t}, emitCell{Kind: "checksum", Typ: t})
 	}
@@ -214,7 +216,7 @@ func (e *Engine) buildCell(s *State, c emitCell) *cellObjs {
 		return t, e.newObj(s, t)
 	}
 	switch c.Kind {
-	case "basic":
+	case "basic", "order":
 		t, a := mk("BasicFieldAttribute")
 		e.setF(s, a, t, "Type", Str(c.Typ))
 		e.setF(s, o.field, fT, "Attr", e.ifaceOf(t, a)...)
@@ -288,6 +290,11 @@ func (e *Engine) buildCell(s *State, c emitCell) *cellObjs {
 		e.setF(s, o.field, fT, "Attr", e.ifaceOf(t, a)...)
 	}
 	fields = append(fields, Value{o.field})
+	var second *Term
+	if c.Kind == "order" {
+		second = e.basicField(s, Sym("in.g.Name", SStr), "u32")
+		fields = append(fields, Value{second})
+	}
 	o.pkt = e.newObj(s, pT)
 	e.setF(s, o.pkt, pT, "Name", Sym("in.p.Name", SStr))
 	e.setF(s, o.pkt, pT, "IsRoot", True)
@@ -308,6 +315,9 @@ func (e *Engine) buildCell(s *State, c emitCell) *cellObjs {
 	fm := s.newAlloc(e.typeKey(fmT))
 	e.setF(s, o.pkt, pT, "FieldMap", fm)
 	e.mapStore(s, fmT, fm, Value{fname}, Value{o.field})
+	if second != nil {
+		e.mapStore(s, fmT, fm, Value{Sym("in.g.Name", SStr)}, Value{second})
+	}
 	if o.keyField != nil {
 		e.mapStore(s, fmT, fm, Value{Sym("in.k.Name", SStr)}, Value{o.keyField})
 		mpT := e.mtype("MatchPair")
@@ -326,6 +336,9 @@ func (e *Engine) buildCell(s *State, c emitCell) *cellObjs {
 }
 
 // ---------------------------------------------------------------- running one cell
+
+// emitMaxSteps: the largest number of basic blocks any cell run needed (reported, to size the budget).
+var emitMaxSteps int
 
 type emitPath struct {
 	text *Term
@@ -374,6 +387,7 @@ func (e *Engine) runEmit(en emitEntry, c emitCell) (run emitRun) {
 	e.curPhaseB = false
 	e.curFramed = false
 	e.paths = 0
+	e.steps = 0
 	fr := &Frame{fn: fn, regs: map[ssa.Value]Value{}, loops: map[*ssa.BasicBlock]*loopEntry{}, block: fn.Blocks[0]}
 	s.frames = []*Frame{fr}
 	o := e.buildCell(s, c)
@@ -406,6 +420,9 @@ func (e *Engine) runEmit(en emitEntry, c emitCell) (run emitRun) {
 	}
 	fr.oldHeap = s.heap.clone()
 	res := e.runEntry(s)
+	if e.steps > emitMaxSteps {
+		emitMaxSteps = e.steps
+	}
 	for _, r := range res {
 		if len(r.ret) == 0 || len(r.ret[0]) != 1 || r.ret[0][0].S != SStr {
 			continue
@@ -504,7 +521,7 @@ func pcHas(pc []*Term, t *Term) bool {
 func expectedDeps(c emitCell, dir string) (must, mustNot []string, leMust, leMustNot bool) {
 	multi := func(t string) bool { return t != "u8" && t != "i8" && t != "char" }
 	switch c.Kind {
-	case "basic":
+	case "basic", "order":
 		mustNot = []string{"StrPrefix", "CfgPad", "FieldPad", "Length", "CheckSum"}
 		if multi(c.Typ) {
 			leMust = true
